@@ -59,7 +59,7 @@ def main():
         out.append('| %d | %d | %d | %d | %d | %d | %d | %d |' % (r, n, stat[(r, 'caught with a concrete replay')], stat[(r, 'flagged without a failing input')], stat[(r, 'missed')],
                                                                stat[(r, 'final:caught with a concrete replay')], stat[(r, 'final:caught, no-failing-input-found')], stat[(r, 'final:MISSED')]))
     out.append('')
-    out.append('The final regression (`seeded/REGRESSION.txt`) ran `tools/seedtest.sh` for every seeded change sequentially against the final machinery (quick tier); round 4 (six seeds, a later session: C08-5, C08-6, C09-6, C11-6, C12-5, C15-5) was run the same way after the strengthening it prompted. C12-5 leaves every literal clause of C12 intact (terminates, re-lint clean, idempotent) and breaks meaning preservation: the C12 check flags it through the iteration correspondence (`no-failing-input-found`, which is the accurate verdict for C12), the C11 check exhibits the corrupted file.')
+    out.append('The final regression (`seeded/REGRESSION.txt`) ran `tools/seedtest.sh` for every seeded change sequentially against the final machinery (quick tier); round 4 (eight seeds, a later session: C08-5, C08-6, C09-6, C11-6, C12-5, C12-6, C15-5, C17-5) was run the same way after the strengthening it prompted. C12-5 leaves every literal clause of C12 intact (terminates, re-lint clean, idempotent) and breaks meaning preservation: the C12 check flags it through the iteration correspondence (`no-failing-input-found`, which is the accurate verdict for C12), the C11 check exhibits the corrupted file.')
     out.append('')
     out.append('| seed | breaks | needs | caught by | final regression |')
     out.append('|---|---|---|---|---|')
